@@ -4,9 +4,11 @@ from __future__ import annotations
 
 import ast
 import itertools
+import math
 import os
 from typing import Dict, List, Optional, Tuple
 
+from sa.idioms import norm_multiset
 from sa.index import AnalysisError, ClassInfo
 from sa.models import shape_str, strip_opt
 from sa.peval import peval, weak_orderings
@@ -273,7 +275,13 @@ class C04:
             trig = [g for g, _ in triggers(s)]
             site = f"{file}:{s.node.lineno} Clip._validate_times"
             bad = None
-            for o in weak_orderings(["start", "end"]):
+            # the three orderings, then pairs one rounding step to a few 1e-10 apart at several magnitudes: a tolerance in
+            # the comparison (isclose, round, an epsilon) accepts a clip that starts after it ends
+            placements = [dict(o) for o in weak_orderings(["start", "end"])]
+            for base in (0.0, 0.3, 1.0, 1000.0, 86400.0):
+                for d in (math.ulp(base) if base else 5e-324, 1e-12, 1e-10 * max(base, 1.0)):
+                    placements += [{"start": base + d, "end": base}, {"start": base, "end": base + d}]
+            for o in placements:
                 env = {st: float(o["start"]), en: float(o["end"])}
                 for k, v in alt.items():
                     env[k] = env[v]
@@ -292,7 +300,7 @@ class C04:
                     bad = (o, rej)
                     break
             if bad is None:
-                ctx.ok("R04.2", site, "raise iff start_time > end_time (equal times accepted) on all 3 orderings")
+                ctx.ok("R04.2", site, f"raise iff start_time > end_time (equal times accepted) on all 3 orderings and {len(placements) - 3} near-equal placements")
             elif bad != "undec":
                 o, rej = bad
                 rel = "==" if o["start"] == o["end"] else ("<" if o["start"] < o["end"] else ">")
@@ -352,6 +360,7 @@ class C04:
             got[self._canon(alpha(g))] = (g, r)
         # alpha() numbers binders per whole term, so normalise each side independently as well
         def norm(t):
+            t = norm_multiset(t)  # Counter-based spellings of "has duplicates" / "the set of"
             if t[0] == "cmp":
                 return self._canon(("cmp", t[1], alpha(t[2]), alpha(t[3])))
             return alpha(t)
